@@ -19,7 +19,7 @@ EXTENDS Integers, Sequences, FiniteSets, SequencesExt, Json, IOUtils, TLC
 Traces == JsonDeserialize(IOEnv.TRACE_FILE)
 VARIABLES tid, l, st, cnt
 vars == <<tid, l, st, cnt>>
-Clauses == {"C16_Order", "C16_Sync", "C16_Error", "C16_Returns", "C16_Disconnect", "H_Device"}
+Clauses == {"C16_Order", "C16_Sync", "C16_Error", "C16_Returns", "C16_Disconnect", "C16_Loss", "H_Device"}
 
 Lower(b) == IF b >= 65 /\ b <= 90 THEN b + 32 ELSE b
 StartsWith(t, p) == Len(t) >= Len(p) /\ \A i \in DOMAIN p : Lower(t[i]) = p[i]
@@ -36,12 +36,14 @@ Holds(c, e) ==
          (e.k = "tx" /\ ~IsStartup(e.text)) =>
             (st.ntx < Len(st.calls) /\ e.text = st.calls[st.ntx + 1])            \* next statement, unmodified, not before its call
     [] c = "C16_Sync" ->
-         (e.k = "ret" /\ e.res = "ok") => Len(st.acks) >= e.s                     \* its own acknowledgement was handed over before
+         (e.k = "ret" /\ e.res = "ok" /\ ~st.lost) => Len(st.acks) >= e.s                     \* its own acknowledgement was handed over before
     [] c = "C16_Error" ->
          (e.k = "ret" /\ Len(st.acks) >= e.s) => ((e.res = "DeviceError") <=> IsError(st.acks[e.s]))
     [] c = "C16_Returns" -> e.k # "stuck"
     [] c = "C16_Disconnect" ->
          e.k = "disc_ret" => (~e.alive /\ st.ntx = Len(st.calls) /\ Len(st.acks) = Len(st.calls))
+    \* connection loss: the write() in flight when the link drops does not return normally (it raises), and it does return
+    [] c = "C16_Loss" -> (e.k = "ret" /\ st.lost) => e.res # "ok"
     [] c = "H_Device" -> (e.k = "rel" /\ IsAck(e.text)) => st.owed > 0
 Ante(c, e) ==
   CASE c = "C16_Order" -> e.k = "tx" /\ ~IsStartup(e.text)
@@ -49,6 +51,7 @@ Ante(c, e) ==
     [] c = "C16_Error" -> e.k = "ret" /\ Len(st.acks) >= e.s /\ IsError(st.acks[e.s])
     [] c = "C16_Disconnect" -> e.k = "disc_ret"
     [] c = "H_Device" -> e.k = "rel"
+    [] c = "C16_Loss" -> e.k = "ret" /\ st.lost
     [] OTHER -> TRUE
 
 SigOf(c, e) ==
@@ -56,6 +59,7 @@ SigOf(c, e) ==
 
 NextSt(e) ==
   CASE e.k = "call" -> [st EXCEPT !.calls = Append(st.calls, e.text)]
+    [] e.k = "lost" -> [st EXCEPT !.lost = TRUE]
     [] e.k = "tx" -> IF IsStartup(e.text) THEN [st EXCEPT !.owed = st.owed + 1, !.q = Append(st.q, "hs")]
                      ELSE [st EXCEPT !.ntx = st.ntx + 1, !.owed = st.owed + 1, !.q = Append(st.q, "stmt")]
     [] e.k = "rel" ->
@@ -68,7 +72,7 @@ NextSt(e) ==
 
 Init ==
   /\ tid \in 1..Len(Traces) /\ l = 1
-  /\ st = [calls |-> <<>>, ntx |-> 0, acks |-> <<>>, owed |-> 0, q |-> <<>>, lateHs |-> FALSE]
+  /\ st = [calls |-> <<>>, ntx |-> 0, acks |-> <<>>, owed |-> 0, q |-> <<>>, lateHs |-> FALSE, lost |-> FALSE]
   /\ cnt = [c \in Clauses |-> 0]
 Step ==
   /\ l <= Len(Traces[tid].ev)
